@@ -521,7 +521,7 @@ def run_cases(ctx, topo_specs, cases, sentinel=True):
     parts = [pairs[k::nproc] for k in range(nproc)]
     with ThreadPoolExecutor(max_workers=nproc) as ex:
         outs_p = list(ex.map(lambda part: ctx.run_impl("select_impl.py", {"mode": "run", "topologies": topo_specs,
-                                                                           "cases": part}), parts))
+                                                                           "cases": part}, timeout=3000), parts))
     atoms_by_topo = outs_p[0]["atoms"]
     results = [None] * len(pairs)
     for k, o in enumerate(outs_p):
@@ -687,12 +687,18 @@ def build_cases(ctx):
             a, b = toks(gen_atomic(rng), "conv", rng), toks(gen_atomic(rng), "conv", rng)
             add(join(["("] + a + [")", o, "("] + b + [")"], rng, 0.3), "spelling")
             add(join(a + [o] + b, rng, 0.0), "spelling")
-    n = 700 if quick else 9000
+    # pyparsing needs up to seconds for parentheses nested 5-6 deep (19 levels per parenthesis): the deep cases are
+    # mostly generated without parentheses or with the conventional ones, and are few
+    n = 700 if quick else 6000
     for i in range(n):
-        depth = rng.choice([0, 1, 1, 2, 2, 3, 4, 6] if not quick else [0, 1, 1, 2, 2, 3, 4])
+        depth = rng.choice([0, 1, 1, 2, 2, 3, 4] if quick else [0, 1, 1, 2, 2, 2, 3, 3, 4])
         tree = gen_tree(rng, depth)
         style = rng.choice(["conv", "conv", "full", "none", "rand"])
         add(join(toks(tree, style, rng), rng, rng.choice([0.0, 0.0, 0.5, 1.0])), "random/" + style)
+    for i in range(20 if quick else 300):
+        tree = gen_tree(rng, rng.choice([5, 6]))
+        style = rng.choice(["none", "none", "none", "conv"]) if i % 10 else "full"
+        add(join(toks(tree, style, rng), rng, rng.choice([0.0, 0.5])), "random-deep/" + style)
     for kind in MALFORMED_KINDS:
         for _ in range(12 if quick else 150):
             add(gen_malformed(rng, kind), "malformed", malformed=kind)
